@@ -27,11 +27,11 @@ try:
     res["suite_tail"] = out[-600:]
     run = os.path.join(src, "demo", "run.sh")
     if os.path.exists(run):
-        rc1, o1 = sh(f"bash {run} {wt}", cwd=os.path.join(src, "demo"), e=env)
+        rc1, o1 = sh(f"bash {run} {wt}", cwd=os.path.join(src, "demo"))
         res["demo_with_change_rc"] = rc1
         res["demo_with_change_tail"] = o1[-400:]
         sh("git checkout -- . && git clean -fdq", cwd=wt)
-        rc2, o2 = sh(f"bash {run} {wt}", cwd=os.path.join(src, "demo"), e=env)
+        rc2, o2 = sh(f"bash {run} {wt}", cwd=os.path.join(src, "demo"))
         res["demo_clean_rc"] = rc2
         res["demo_clean_tail"] = o2[-300:]
         sh("git checkout -- . && git clean -fdq", cwd=wt)
